@@ -80,6 +80,10 @@ def victim(regs, body):
                 task.executor(NATIVE_BOOM, 1)
             except Exception as e:
                 marks.append(("T", "exec_exc", type(e).__name__))
+            try:
+                task.executor(NATIVE_BOOM, 2)
+            except Exception as e:
+                marks.append(("T", "exec_exc2", type(e).__name__, str(e)))
         elif op == "raise":
             raise KeyError("victim failed")
         elif op == "cancel_self":
@@ -233,6 +237,8 @@ def run_scenario(sc, legacy):
 
         def native_boom(x):
             exec_threads.append(threading.get_ident())
+            if x == 2:
+                raise TypeError("boom-type-error")  # an error of the function itself, not "not callable"
             raise OSError("boom")
 
         g.update({"gate": gate, "NATIVE": native, "NATIVE_WORK": native_work, "NATIVE_BOOM": native_boom,
@@ -377,6 +383,8 @@ def observe(w, sc, g, marks, exec_threads, loop_thread, fault, injected, alive_a
     if "exec_raise" in body and not killed:
         if ("T", "exec_exc", "OSError") not in marks and ("T", "end") in tm:
             return {"kind": "executor-exception", "observed": tm}, out
+        if ("T", "exec_exc2", "TypeError", "boom-type-error") not in marks and ("T", "end") in tm:
+            return {"kind": "executor-exception-altered", "expected": ("TypeError", "boom-type-error"), "observed": [m for m in marks if m[1] == "exec_exc2"]}, out
     if exec_threads and any(x == loop_thread for x in exec_threads):
         return {"kind": "executor-on-loop-thread"}, out
     if w.errors:
@@ -455,6 +463,50 @@ def run_nested(caller, form, mode, legacy):
         w.close()
 
 
+WAIT0_SRC = '''
+marks = []
+TASKS = {}
+def slow():
+    task.sleep(5)
+    return "slow-result"
+@service
+def poller():
+    t = task.create(slow)
+    TASKS["slow"] = t
+    for to in (0, 0.0):
+        done, pending = task.wait({t}, timeout=to)
+        marks.append(("poll", NOW(), len(done), len(pending)))
+    done, pending = task.wait({t}, timeout=2)
+    marks.append(("wait2", NOW(), len(done), len(pending)))
+    done, pending = task.wait({t})
+    marks.append(("wait", NOW(), len(done), len(pending), t.result()))
+    done, pending = task.wait({t}, timeout=0)
+    marks.append(("poll-done", NOW(), len(done), len(pending)))
+'''
+
+
+def run_wait0(legacy):
+    """task.wait(..., timeout=0) polls: it returns at once with the unfinished tasks pending."""
+    from mc.world import World
+
+    w = World({"hello.py": WAIT0_SRC}, legacy=legacy)
+    try:
+        t0 = w.elapsed()
+        w.g()["NOW"] = lambda: round(w.elapsed() - t0, 3)
+        w.start_service("pyscript", "poller", {})
+        w.settle()
+        w.advance(10)
+        marks = [tuple(m) for m in w.g()["marks"]]
+        want = [("poll", 0.0, 0, 1), ("poll", 0.0, 0, 1), ("wait2", 2.0, 0, 1), ("wait", 5.0, 1, 0, "slow-result"), ("poll-done", 5.0, 1, 0)]
+        if marks != want:
+            return {"kind": "task.wait-timeout", "expected": want, "observed": marks}, marks
+        if w.errors:
+            return {"kind": "loop-exception", "observed": repr(w.errors[0])[:200]}, marks
+        return None, marks
+    finally:
+        w.close()
+
+
 NESTED = [(c, f, m) for c in ("service", "trigger") for f in ("call", "direct") for m in ("ok", "raise")]
 
 
@@ -473,6 +525,11 @@ def run_shard(shard):
             res.case(("nested", c, f, m, tuple(marks)), nontrivial=True, transitions=4, config=("legacy" if legacy else "new") + "/nested", sample=case)
             if fail:
                 res.fail(f"{'legacy' if legacy else 'new'}|nested|{fail['kind']}|{m}", case, expected=fail.get("expected"), observed=fail.get("observed"))
+        fail, marks = run_wait0(legacy)
+        case = {"wait0": True, "legacy": legacy}
+        res.case(("wait0", tuple(marks)), nontrivial=True, transitions=5, config=("legacy" if legacy else "new") + "/wait0", sample=case)
+        if fail:
+            res.fail(f"{'legacy' if legacy else 'new'}|wait0|{fail['kind']}", case, expected=fail.get("expected"), observed=fail.get("observed"))
         return res
     tier, legacy, k, n = shard
     for i, sc in enumerate(scenarios(tier)):
@@ -491,6 +548,9 @@ def run_shard(shard):
 
 
 def replay(case):
+    if "wait0" in case:
+        fail, marks = run_wait0(case["legacy"])
+        return {"ok": fail is None, "failure": fail, "marks": [repr(m) for m in marks]}
     if "nested" in case:
         fail, marks = run_nested(*case["nested"], case["legacy"])
         return {"ok": fail is None, "failure": fail, "marks": [repr(m) for m in marks]}
